@@ -54,10 +54,6 @@ func c03Value(c *ctx, val interface{}, label string, seed uint64, budget int, re
 		c.dist["choices_varied"] += varied
 		if len(bs) < 20000 && varied > 0 {
 			c.corr("parse "+hx(bs), "ok "+h0.String())
-			// the rendering is inside the hypothesis of C03_decoder_refines_grammar: the grammar with
-			// class definitions in front of containers only (Spec/GrammarR.v) reads it as the same value
-			c.corr("rparse "+hx(bs), "ok "+h0.String())
-			c.dist["renderings_in_restricted_grammar"]++
 		}
 		if varied > 0 && len(bs) < 4000 {
 			decCorr(c, tm, bs)
@@ -151,7 +147,6 @@ func c03SpecExamples(c *ctx) {
 		}
 		h, _ := hparseAll(e.bs)
 		c.corr("parse "+hx(e.bs), "ok "+h.String())
-		c.corr("rparse "+hx(e.bs), "ok "+h.String())
 		var d interface{}
 		o, m := guard(func() error { var er error; d, er = hessian.ToObject(e.bs, e.tm); return er })
 		if o != oOK {
